@@ -23,6 +23,7 @@ def main(tier):
     consumers.filter_call_sites(P, rep)
     consumers.grid_depth(P, rep)
     consumers.base64_length(P, rep)
+    rep.attempt(consumers.zlib_blocks, P, rep)
     consumers.grid_cartesian(P, rep)
     rep.attempt(consumers.grid_chunk, P, rep)
     rep.attempt(consumers.grid_annulus, P, rep)
